@@ -317,6 +317,69 @@ def units_check(case, ctx):
     return res
 
 
+# ---- unreachable code ---------------------------------------------------------------------------------------------
+
+DEAD_TERMS = ["return 0;", "break;", "continue;", "goto out;", "die();", "for (;;) ;", "return n;", ";"]
+DEAD_FOLLOW = [
+    "int a[n]; a[0] = 1; r += a[0] + sizeof a;",
+    "int (*p)[n] = 0; r += sizeof *p;",
+    "int k = n * 2; r += k;",
+    "struct pt { int x, y; } q = { n, 2 }; r += q.x;",
+    "r += (int[]){ 1, n }[1];",
+    "char *m = __builtin_alloca(n); m[0] = 1; r += m[0];",
+    "switch (n) { case 1: r++; break; default: r--; }",
+    "lab: r++; if (r < 3) goto lab;",
+    "r += n ? f2(n) : f2(1);",
+    "r += n && f2(n);",
+    "{ int b[n][2]; b[0][1] = 2; r += b[0][1]; }",
+    "while (n--) r++;",
+    "do r++; while (0);",
+    "long double ldx; (void)&ldx;",
+    "static int sv = 3; r += sv;",
+    "_Static_assert(1, \"\"); r++;",
+    "for (int i = 0; i < n; i++) { int c[i + 1]; c[0] = i; r += c[0]; }",
+    # calls that do not return inside expressions: the blocks they end must not be named as phi sources or left open
+    "r += n ? (die(), 0) : 5;", "r += n ? 5 : (die(), 0);", "r += (n && (die(), 1)) + (n || (die(), 0));", "r += f2((die(), n));", "n ? die() : (void)0;",
+    "r += n ? (die(), 1) : (die(), 2);", "r += (n ? (die(), 1) : 2) ? 3 : (die(), 4);", "if (n ? (die(), 0) : 1) r++;", "while (n ? 0 : (die(), 1)) r++;",
+    "switch (n ? (die(), 1) : 2) { case 2: r++; }", "r += (int[]){ n ? (die(), 1) : 2, 3 }[0];", "struct pn { int a, b; } w = { n ? (die(), 1) : 2, 3 }; r += w.a;",
+]
+
+
+def dead_enum(ctx):
+    for ti, term in enumerate(DEAD_TERMS):
+        for fi in range(len(DEAD_FOLLOW)):
+            yield {"term": ti, "follow": fi}
+    # two dead regions in a row, and dead code at the very start of a loop body
+    for fi in range(len(DEAD_FOLLOW)):
+        yield {"term": 0, "follow": fi, "twice": True}
+
+
+def dead_check(case, ctx):
+    """Valid but unreachable code after every kind of terminator: the module must still be well formed (every block
+    terminated, every temporary defined before use) on all targets."""
+    res = Result()
+    term = DEAD_TERMS[case["term"]]
+    follow = DEAD_FOLLOW[case["follow"]]
+    body = "%s %s" % (term, follow)
+    if case.get("twice"):
+        body += " return r; " + follow.replace("lab:", "lab2:").replace("goto lab;", "goto lab2;").replace("struct pt", "struct pt2").replace("struct pn", "struct pn2").replace(" sv", " sv2")
+    src = ("_Noreturn void die(void); int f2(int);\nint f(int n) {\n\tint r = 0;\n\twhile (n > 100) {\n\t\t%s\n\t}\n"
+           "\tfor (;;) { %s }\nout:\n\treturn r;\n}\n" % (body, body.replace("lab:", "lab3:").replace("goto lab;", "goto lab3;").replace("lab2", "lab4").replace("struct pt2", "struct pt4").replace("struct pt ", "struct pt3 ").replace("struct pn2", "struct pn4").replace("struct pn ", "struct pn3 ").replace(" sv2", " sv4").replace(" sv", " sv3")))
+    for t in cproc.TARGETS:
+        p = cproc.cc(ctx, src.encode(), t, "plain", timeout=60)
+        res.n += 1
+        if p.timeout or p.rc != 0:
+            res.discard.append("rejected: " + p.err.decode(errors="replace").split("error:")[-1].strip()[:40])
+            continue
+        check_il(ctx, p, res, "dead/%s" % t, src.encode(), t, with_clang=False)
+        if res.fail is not None:
+            res.fail["input"] = src
+            break
+    res.labels.append("dead:%s" % term.split()[0].rstrip(";("))
+    res.sample = {"source": "deadcode", "body": body[:120]}
+    return res
+
+
 def gen_sources(ctx):
     try:
         from . import c01
@@ -334,4 +397,5 @@ def sources(ctx):
         Source("inits", inits_check, strategy=lambda c: __import__("vlib.gen.initgen", fromlist=["x"]).init_cases(), examples={"quick": 500, "thorough": 20000}),
         Source("byvalue", byvalue_check, strategy=lambda c: __import__("vlib.props.c08", fromlist=["x"]).struct_cases(), examples={"quick": 600, "thorough": 20000}),
         Source("units", units_check, strategy=lambda c: __import__("vlib.props.c09", fromlist=["x"]).units(), examples={"quick": 300, "thorough": 10000}),
+        Source("deadcode", dead_check, enum=dead_enum, exhaustive=True),
     ] + gen_sources(ctx)
